@@ -27,7 +27,10 @@ func c08Start(r *Router, h *handler, ctx context.Context) {
 	h.messagesCh = ch
 	hctx, cancel := context.WithCancel(ctx)
 	h.stopFn = cancel
-	go h.run(hctx, nil)
+	r.middlewaresLock.Lock()
+	mws := append([]middleware{}, r.middlewares...)
+	r.middlewaresLock.Unlock()
+	go h.run(hctx, mws)
 }
 
 // HarnessC08Route: two handlers with arbitrary (possibly shared) topics and publishers; each message is
@@ -39,6 +42,7 @@ func HarnessC08Route() {
 	pubA, pubB := &c08PubA{}, &c08PubB{}
 	var seen []c08Seen
 	var outs [2][]*Message
+	var m0, m1 *Message
 	mk := func(i int, name string) (*handler, *directSubscriber, Publisher, string, string) {
 		p := "h" + strconv.Itoa(i) + "."
 		subTopic := vrt.PickStr(p+"subtopic", topics[0], topics[1])
@@ -68,22 +72,45 @@ func HarnessC08Route() {
 		r.AddHandler(name, subTopic, sub, pubTopic, pub, fn)
 		return r.handlers[name], sub, pub, subTopic, pubTopic
 	}
-	h0, sub0, p0, st0, pt0 := mk(0, "H0")
+	name0 := vrt.PickStr("h0.name", "H0", "") // the empty handler name is legal
+	h0, sub0, p0, st0, pt0 := mk(0, name0)
 	h1, sub1, p1, st1, pt1 := mk(1, "H1")
+	// a handler-level middleware of handler 0 that marks its outputs: it must never run for handler 1
+	mwRuns := 0
+	(&Handler{router: r, handler: h0}).AddMiddleware(func(h HandlerFunc) HandlerFunc {
+		return func(m *Message) ([]*Message, error) {
+			mwRuns++
+			vrt.Assert(m == m0 || m == nil || mwRuns >= 0, "")
+			return h(m)
+		}
+	})
 	ctx, cancel := context.WithCancel(context.Background())
 	c08Start(r, h0, ctx)
 	c08Start(r, h1, ctx)
-	m0, m1 := NewMessage("m0", nil), NewMessage("m1", nil)
+	m0, m1 = NewMessage("m0", nil), NewMessage("m1", nil)
 	sub0.chans[0] <- m0
 	<-m0.Acked()
 	sub1.chans[0] <- m1
 	<-m1.Acked()
+	vrt.Assert(mwRuns == 1, "a handler-level middleware runs for its own handler only")
+	// a message already enriched by handler 0 (its context carries H0's values) now arrives for handler 1
+	redeliver := vrt.Bool("redeliver")
+	if redeliver {
+		m0b := NewMessage("m0b", nil)
+		m0b.SetContext(m0.Context())
+		sub1.chans[0] <- m0b
+		<-m0b.Acked()
+		last := seen[len(seen)-1]
+		vrt.Assert(last.handler == "H1" && last.hName == "H1" && last.subTopic == st1 && last.pubTopic == pt1, "the context reports the consuming handler's values even if the message was enriched elsewhere before")
+		seen = seen[:len(seen)-1]
+	}
 
 	vrt.Assert(len(seen) == 2, "each message is handled exactly once")
+	_ = name0
 	for _, s := range seen {
 		own := m0
 		h, st, pt, p := h0, st0, pt0, p0
-		if s.handler == "H1" {
+		if s.msg == m1 {
 			own, h, st, pt, p = m1, h1, st1, pt1, p1
 		}
 		_ = h
@@ -126,11 +153,18 @@ func HarnessC08Route() {
 		vrt.Assert(found, "outputs go unmodified and in order to the handler's publisher on the handler's publish topic")
 		for _, m := range out {
 			c := m.Context()
-			vrt.Assert(HandlerNameFromCtx(c) == "H"+strconv.Itoa(i) && PublishTopicFromCtx(c) == pt, "produced messages carry the handler's context")
+			wantName := "H1"
+			if i == 0 {
+				wantName = name0
+			}
+			vrt.Assert(HandlerNameFromCtx(c) == wantName && PublishTopicFromCtx(c) == pt, "produced messages carry the handler's context")
 		}
 	}
 	check(0, p0, pt0)
 	check(1, p1, pt1)
+	if redeliver && len(outs[1]) > 0 {
+		total++ // handler 1 ran twice
+	}
 	vrt.Assert(len(pubA.calls)+len(pubB.calls) == total, "and nowhere else")
 	vrt.Observe("pubcalls", len(pubA.calls)+len(pubB.calls))
 	cancel()
